@@ -75,7 +75,7 @@ func validKeyVerifyRule(P *Program, R *Report) {
 			if c == nil || bigMethod(c) != "ProbablyPrime" || a.Want != True {
 				return false
 			}
-			k, ok := constInt(c.Call.Args[1])
+			k, ok := constInt(callArgs(c)[1])
 			if !ok || k < 20 {
 				return false
 			}
@@ -113,7 +113,7 @@ func validKeyVerifyRule(P *Program, R *Report) {
 			if !strings.Contains(strings.ToLower(name), "structure") {
 				return false
 			}
-			for _, ar := range c.Call.Args {
+			for _, ar := range callArgs(c) {
 				if desc(ar) == fd {
 					return true
 				}
@@ -136,15 +136,15 @@ func validKeyVerifyRule(P *Program, R *Report) {
 		return (desc(x) == vkp+".Challenge" && y == ssa.Value(hc)) || (desc(y) == vkp+".Challenge" && x == ssa.Value(hc))
 	}})
 	if hc != nil {
-		R.decide(rule, kVKVerify+":issig", "the key proof is hashed without the signature-session marker", desc(hc.Call.Args[1]) == "false", "", P.Pos(hc.Pos()))
+		R.decide(rule, kVKVerify+":issig", "the key proof is hashed without the signature-session marker", desc(callArgs(hc)[1]) == "false", "", P.Pos(hc.Pos()))
 	}
 	mp(P, R, rule, kVKVerify+":QSPP", "accept => quasiSafePrimeProductVerifyProof(s.n, Challenge, QSPPproof) true", fn, acc, &MustPass{Match: func(a Atom) bool {
 		c, ok := callAtom(a, True, kQSPPVer)
-		return ok && desc(c.Call.Args[0]) == vks+".n" && desc(c.Call.Args[1]) == vkp+".Challenge" && desc(c.Call.Args[2]) == vkp+".QSPPproof"
+		return ok && desc(callArgs(c)[0]) == vks+".n" && desc(callArgs(c)[1]) == vkp+".Challenge" && desc(callArgs(c)[2]) == vkp+".QSPPproof"
 	}})
 	mp(P, R, rule, kVKVerify+":group", "accept => BuildGroup(GroupPrime) succeeded", fn, acc, &MustPass{Match: func(a Atom) bool {
 		c, idx := callAndResult(a.V)
-		return c != nil && calleeIs(c, "zkproof.BuildGroup") && idx == 1 && a.Want == True && desc(c.Call.Args[0]) == gp
+		return c != nil && calleeIs(c, "zkproof.BuildGroup") && idx == 1 && a.Want == True && desc(callArgs(c)[0]) == gp
 	}})
 }
 
@@ -162,7 +162,7 @@ func listChain(v ssa.Value) []string {
 		case *ssa.Call:
 			if isCallTo(x, "builtin:append") {
 				// one step per appended element: append(l, a, b) is append(l, a) followed by append(l, b)
-				t, _ := seqTail(x.Call.Args[1], 0, map[ssa.Value]bool{})
+				t, _ := seqTail(callArgs(x)[1], 0, map[ssa.Value]bool{})
 				var names []string
 				for _, e := range t {
 					names = append(names, "append("+seqString([]SeqElem{e})+")")
@@ -171,12 +171,12 @@ func listChain(v ssa.Value) []string {
 					names = []string{"append([])"}
 				}
 				steps = append(names, steps...)
-				v = x.Call.Args[0]
+				v = callArgs(x)[0]
 				continue
 			}
 			// a call taking the previous list as an argument
 			var prev ssa.Value
-			args := x.Call.Args
+			args := callArgs(x)
 			for _, a := range args {
 				if sl, ok := a.Type().Underlying().(*types.Slice); ok && isBigIntPtr(sl.Elem()) {
 					prev = a
@@ -237,12 +237,12 @@ func validKeyListRule(P *Program, R *Report) {
 		}
 		return out
 	}
-	vs, bs := norm(listChain(vh.Call.Args[0])), norm(listChain(bh.Call.Args[0]))
+	vs, bs := norm(listChain(callArgs(vh)[0])), norm(listChain(callArgs(bh)[0]))
 	R.decide(rule, "order-agreement", "prover and verifier append the sub-structures' contributions in the same order", strings.Join(vs, ",") == strings.Join(bs, ",") && len(vs) >= 12,
 		"verifier: "+strings.Join(vs, ",")+"\nprover:   "+strings.Join(bs, ","), P.Pos(vh.Pos()))
 	// every field influences the list or a verified predicate
 	st := structOf(P, "keyproof.ValidKeyProof")
-	ds := descSet(depsIP(P, []ssa.Value{vh.Call.Args[0]}, 1))
+	ds := descSet(depsIP(P, []ssa.Value{callArgs(vh)[0]}, 1))
 	for i := 0; st != nil && i < st.NumFields(); i++ {
 		f := st.Field(i).Name()
 		if f == "Challenge" || f == "QSPPproof" {
@@ -260,7 +260,7 @@ func validKeyListRule(P *Program, R *Report) {
 	pub := false
 	allInstrs(bf, func(i ssa.Instruction) {
 		if st, ok := i.(*ssa.Store); ok {
-			if fa, ok := st.Addr.(*ssa.FieldAddr); ok && fieldName(fa.X.Type(), fa.Field) == "GroupPrime" && strings.HasPrefix(desc(st.Val), "call:keyproof.findSafePrime(") {
+			if fa, ok := st.Addr.(*ssa.FieldAddr); ok && faName(fa) == "GroupPrime" && strings.HasPrefix(desc(st.Val), "call:keyproof.findSafePrime(") {
 				pub = true
 			}
 		}
@@ -373,7 +373,7 @@ func quasiSafePrimeRule(P *Program, R *Report) {
 				// one operand is the result of GCD(_, _, N, i) computed in this iteration: the call itself, or the object
 				// it wrote (its receiver) with no later writer before the comparison
 				g := lastWriterBefore(pr[0], cmp)
-				if g == nil || bigMethod(g) != "GCD" || desc(g.Call.Args[3]) != "arg#0" || !l.Body[g.Block()] {
+				if g == nil || bigMethod(g) != "GCD" || desc(callArgs(g)[3]) != "arg#0" || !l.Body[g.Block()] {
 					continue
 				}
 				// the other is the constant one
@@ -397,15 +397,15 @@ func quasiSafePrimeRule(P *Program, R *Report) {
 		var idx int64 = -1
 		mp(P, R, rule, kQSPPVer+":component:"+cn, "accept => "+cn+"VerifyProof(N, challenge, index, its proof) true", fn, acc, &MustPass{Match: func(a Atom) bool {
 			c, ok := callAtom(a, True, vname)
-			if !ok || desc(c.Call.Args[0]) != "arg#0" || desc(c.Call.Args[1]) != "arg#1" {
+			if !ok || desc(callArgs(c)[0]) != "arg#0" || desc(callArgs(c)[1]) != "arg#1" {
 				return false
 			}
-			if k, isK := c.Call.Args[2].(*ssa.Call); isK && isCallTo(k, "big.NewInt") {
-				if v, okv := constInt(k.Call.Args[0]); okv {
+			if k, isK := callArgs(c)[2].(*ssa.Call); isK && isCallTo(k, "big.NewInt") {
+				if v, okv := constInt(callArgs(k)[0]); okv {
 					idx = v
 				}
 			}
-			return strings.HasPrefix(desc(c.Call.Args[3]), "<keyproof.QuasiSafePrimeProductProof>.")
+			return strings.HasPrefix(desc(callArgs(c)[3]), "<keyproof.QuasiSafePrimeProductProof>.")
 		}})
 		if prev, dup := idxSeen[idx]; dup || idx < 0 {
 			R.bad(rule, kQSPPVer+":index:"+cn, "each component derives its challenges under its own index constant", fmt.Sprintf("index %d also used by %s", idx, prev), P.Pos(fn.Pos()))
@@ -518,11 +518,11 @@ func orCompositionRule(P *Program, R *Report) {
 			}
 			// one side is the challenge parameter, the other a fresh Xor of the two fields
 			for _, pr := range [][2]int{{0, 1}, {1, 0}} {
-				if desc(c.Call.Args[pr[0]]) != "arg#1" {
+				if desc(callArgs(c)[pr[0]]) != "arg#1" {
 					continue
 				}
-				if x, isX := siteCall(c.Call.Args[pr[1]]); isX && bigMethod(x) == "Xor" {
-					d1, d2 := desc(x.Call.Args[1]), desc(x.Call.Args[2])
+				if x, isX := siteCall(callArgs(c)[pr[1]]); isX && bigMethod(x) == "Xor" {
+					d1, d2 := desc(callArgs(x)[1]), desc(callArgs(x)[2])
 					if (d1 == x0 && d2 == x1) || (d1 == x1 && d2 == x0) {
 						return true
 					}
@@ -542,7 +542,7 @@ func orCompositionRule(P *Program, R *Report) {
 		}
 		used := map[string]bool{}
 		for _, c := range callsIn(cf) {
-			for _, a := range c.Common().Args {
+			for _, a := range callArgs(c) {
 				d := desc(a)
 				if d == x0 || d == x1 {
 					used[d] = true
@@ -624,7 +624,7 @@ func keyRangeProofRule(P *Program, R *Report) {
 	okBit := false
 	for _, c := range callsIn(cf) {
 		if isCallTo(c, "zkproof.(*RepresentationProofStructure).CommitmentsFromProof") {
-			d := desc(c.Common().Args[3])
+			d := desc(callArgs(c)[3])
 			okBit = strings.Contains(d, "big.(*Int).Bit(arg#3,#i)")
 		}
 	}
@@ -662,7 +662,7 @@ func isStructureCallOn(a Atom, argDescs ...string) bool {
 	if !strings.Contains(ln, "structure") || !strings.Contains(ln, "verify") {
 		return false
 	}
-	for _, ar := range cc.Call.Args {
+	for _, ar := range callArgs(cc) {
 		d := desc(ar)
 		for _, w := range argDescs {
 			if d == w {
@@ -687,7 +687,7 @@ func lastWriterBefore(v ssa.Value, at ssa.Instruction) *ssa.Call {
 		if i == at {
 			break
 		}
-		if c, ok := i.(*ssa.Call); ok && bigMethod(c) != "" && bigMutators[bigMethod(c)] && len(c.Call.Args) > 0 && siteOf(c.Call.Args[0]) == site {
+		if c, ok := i.(*ssa.Call); ok && bigMethod(c) != "" && bigMutators[bigMethod(c)] && len(callArgs(c)) > 0 && siteOf(callArgs(c)[0]) == site {
 			last = c
 		}
 	}
@@ -843,7 +843,7 @@ func keyproofSafetyRule(P *Program, R *Report) {
 						// `if slices.Contains(field, nil) { return false }`: no element of the whole slice is nil
 						q := &MustPass{P: P, Match: func(a Atom) bool {
 							cc, ok := callAtom(a, False, "slices.Contains")
-							return ok && len(cc.Call.Args) == 2 && desc(cc.Call.Args[0]) == fd && isNilConst(cc.Call.Args[1])
+							return ok && len(callArgs(cc)) == 2 && desc(callArgs(cc)[0]) == fd && isNilConst(callArgs(cc)[1])
 						}}
 						if r := q.Check(fn, acc); r.Holds && r.NAcc > 0 {
 							return true, "slices.Contains(" + fd + ", nil) is false on every accepting path"
@@ -890,7 +890,7 @@ func useAfterCheckRule(P *Program, R *Report, rule string) {
 				continue
 			}
 			used := false
-			for _, a := range c.Common().Args {
+			for _, a := range callArgs(c) {
 				if d := desc(a); d == fd || strings.HasPrefix(d, fd+".") {
 					used = true
 				}
@@ -995,14 +995,14 @@ func rangeParametersRule(P *Program, R *Report) {
 			switch x := i.(type) {
 			case *ssa.Call:
 				if calleeIs(x, "keyproof.newPedersenRangeProofStructure") {
-					check(fn, x.Pos(), x.Call.Args[1], x.Call.Args[2], "range-structure")
+					check(fn, x.Pos(), callArgs(x)[1], callArgs(x)[2], "range-structure")
 				}
 			case *ssa.Store:
 				fa, ok := x.Addr.(*ssa.FieldAddr)
-				if !ok || typeKey(fa.X.Type()) != "keyproof.rangeProofStructure" {
+				if !ok || faType(fa) != "keyproof.rangeProofStructure" {
 					return
 				}
-				f := fieldName(fa.X.Type(), fa.Field)
+				f := faName(fa)
 				if f != "l1" && f != "l2" {
 					return
 				}
@@ -1049,7 +1049,7 @@ func asppCommitmentsHashedRule(P *Program, R *Report, rule string) {
 	if fx := mustFunc(P, R, rule, kx); fx != nil {
 		ok := false
 		for _, r := range returnsOf(fx) {
-			if c, isC := r.Results[0].(*ssa.Call); isC && isCallTo(c, "builtin:append") && desc(c.Call.Args[0]) == "arg#0" && desc(c.Call.Args[1]) == ap+".Commitments" {
+			if c, isC := r.Results[0].(*ssa.Call); isC && isCallTo(c, "builtin:append") && desc(callArgs(c)[0]) == "arg#0" && desc(callArgs(c)[1]) == ap+".Commitments" {
 				ok = true
 			} else {
 				ok = false
@@ -1061,7 +1061,7 @@ func asppCommitmentsHashedRule(P *Program, R *Report, rule string) {
 	if fq := mustFunc(P, R, rule, "keyproof.quasiSafePrimeProductExtractCommitments"); fq != nil {
 		ok := false
 		for _, c := range callsIn(fq) {
-			if calleeName(c) == kx && desc(c.Common().Args[0]) == "arg#0" && desc(c.Common().Args[1]) == "<keyproof.QuasiSafePrimeProductProof>.ASPPproof" {
+			if calleeName(c) == kx && desc(callArgs(c)[0]) == "arg#0" && desc(callArgs(c)[1]) == "<keyproof.QuasiSafePrimeProductProof>.ASPPproof" {
 				for _, r := range returnsOf(fq) {
 					if r.Results[0] == c.Value() {
 						ok = true
@@ -1088,7 +1088,7 @@ func asppCommitmentsHashedRule(P *Program, R *Report, rule string) {
 			if l == nil {
 				continue
 			}
-			roots := sliceRoots(call.Call.Args[0])
+			roots := sliceRoots(callArgs(call)[0])
 			isList := false
 			for _, r := range roots {
 				if desc(r) == "arg#0" {
@@ -1097,7 +1097,7 @@ func asppCommitmentsHashedRule(P *Program, R *Report, rule string) {
 			}
 			if isList {
 				listElem, listLoop = elem, l.Header
-			} else if strings.Contains(desc(call.Call.Args[0]), "commitments") {
+			} else if strings.Contains(desc(callArgs(call)[0]), "commitments") {
 				pubElem, pubLoop = elem, l.Header
 			}
 		}
@@ -1110,7 +1110,7 @@ func asppCommitmentsHashedRule(P *Program, R *Report, rule string) {
 		ok := false
 		allInstrs(fp, func(i ssa.Instruction) {
 			if st, isSt := i.(*ssa.Store); isSt {
-				if fa, isFA := st.Addr.(*ssa.FieldAddr); isFA && typeKey(fa.X.Type()) == "keyproof.AlmostSafePrimeProductProof" && fieldName(fa.X.Type(), fa.Field) == "Commitments" {
+				if fa, isFA := st.Addr.(*ssa.FieldAddr); isFA && faType(fa) == "keyproof.AlmostSafePrimeProductProof" && faName(fa) == "Commitments" {
 					ok = strings.HasSuffix(desc(st.Val), ".commitments")
 				}
 			}
@@ -1136,7 +1136,7 @@ func pedersenCommitHashedRule(P *Program, R *Report, rule string) {
 				continue
 			}
 			if e := appendedSingle(call); e != nil && desc(e) == k.want {
-				for _, r := range sliceRoots(call.Call.Args[0]) {
+				for _, r := range sliceRoots(callArgs(call)[0]) {
 					if strings.HasPrefix(desc(r), "arg#") {
 						ok = true
 					}
@@ -1147,7 +1147,7 @@ func pedersenCommitHashedRule(P *Program, R *Report, rule string) {
 		okFwd := false
 		for _, r := range returnsOf(fn) {
 			if c, _ := callAndResult(r.Results[0]); c != nil {
-				for _, a := range c.Call.Args {
+				for _, a := range callArgs(c) {
 					if ap, isAp := a.(*ssa.Call); isAp && isCallTo(ap, "builtin:append") {
 						okFwd = true
 					}
@@ -1167,7 +1167,7 @@ func descOrNil(v ssa.Value) string {
 
 // appendedSingle: append(s, x) with exactly one appended element x.
 func appendedSingle(c *ssa.Call) ssa.Value {
-	sl, ok := c.Call.Args[1].(*ssa.Slice)
+	sl, ok := callArgs(c)[1].(*ssa.Slice)
 	if !ok {
 		return nil
 	}
